@@ -1,7 +1,8 @@
 #!/bin/bash
 # usage: tools-mutant.sh <patch.diff> <PROP> [more props]
 # Applies a seeded patch to a scratch worktree of /repo HEAD and runs the quick checks against it
-# (VERIF_REPO / VERIF_OUT), so /repo itself and /verif/evidence are not touched.
+# (VERIF_REPO / VERIF_OUT), so /repo itself and /verif/evidence are not touched. VERIF_SNAP=<dir> runs the checks from a
+# copy of /verif (harnesses, models) taken earlier, so that edits in progress in /verif do not disturb the run.
 patch="$1"; shift
 wt=/tmp/wt-mut-$$; out=/tmp/out-mut-$$
 git -C /repo worktree add -q --detach $wt HEAD || exit 3
@@ -9,5 +10,5 @@ trap "git -C /repo worktree remove --force $wt; git -C /repo worktree prune; rm 
 ( cd $wt && git apply "$patch" ) || { echo "patch does not apply"; exit 3; }
 mkdir -p $out
 for p in "$@"; do
-  ( cd /verif && VERIF_REPO=$wt VERIF_OUT=$out timeout 1500 ./bin/gosym check "$p" ${TIER:+-tier $TIER} 2>&1 | egrep "^VIOLATION|^PASS|^INCONCLUSIVE|^KNOWN|harness=" | cut -c1-260 | head -${LINES_MAX:-6} )
+  ( cd ${VERIF_SNAP:-/verif} && VERIF_ROOT=${VERIF_SNAP:-/verif} VERIF_REPO=$wt VERIF_OUT=$out timeout 1500 /verif/bin/gosym check "$p" ${TIER:+-tier $TIER} 2>&1 | egrep "^VIOLATION|^PASS|^INCONCLUSIVE|^KNOWN|harness=" | cut -c1-260 | head -${LINES_MAX:-6} )
 done
